@@ -34,8 +34,12 @@ def fsc_landscape(
                 sigma0 = backend.sqrt(
                     backend.sum_labels(pw0, labels=labels, index=index)
                 )
-                fsc = backend.sum_labels(cov, labels=labels, index=index) / (
-                    sigma0 * sigma1
+                denom = sigma0 * sigma1
+                # shells emptied by the missing wedge mask have no defined correlation
+                valid = denom > 0
+                fsc = (
+                    backend.sum_labels(cov, labels=labels, index=index)[valid]
+                    / denom[valid]
                 )
                 out[iz, iy, ix] = float(fsc.mean())
     return out
